@@ -202,10 +202,11 @@ KANI_UNITS["C43"] = dict(
     prop="C43", crate="varpulis-lsp",
     appends=[("crates/varpulis-lsp/src/diagnostics.rs", "__vpv_c43a", "contracts/kani/c43_diag.rs"),
              ("crates/varpulis-lsp/src/navigation.rs", "__vpv_c43b", "contracts/kani/c43_nav.rs"),
-             ("crates/varpulis-lsp/src/hover.rs", "__vpv_c43c", "contracts/kani/c43_hover.rs")],
+             ("crates/varpulis-lsp/src/hover.rs", "__vpv_c43c", "contracts/kani/c43_hover.rs"),
+             ("crates/varpulis-lsp/src/completion.rs", "__vpv_c43d", "contracts/kani/c43_completion.rs")],
     grade="K-bounded(documents of <= 2 characters (thorough 3) over the alphabet {a _ space newline é 1}; positions 0..=len+1)", level="other", timeout=3600, harness_timeout=1500, jobs=8,
     functions=["varpulis-lsp/src/diagnostics.rs: position_to_line_col, get_error_end_column", "varpulis-lsp/src/navigation.rs: byte_offset_to_position, word_at_position",
-               "varpulis-lsp/src/hover.rs: get_word_at_position"],
+               "varpulis-lsp/src/hover.rs: get_word_at_position", "varpulis-lsp/src/completion.rs: get_completion_context"],
     explanation=("PARTIAL, BOUNDED (position helpers only). For every document up to the stated size over an alphabet that includes a newline and a 2-byte character, and every "
                  "position from 0 to just past the end: the helpers return without panicking; line <= number of newlines; column <= number of characters; a returned word is "
                  "non-empty and not longer than the document; an error range's end is after its start. NOT covered: the request handlers themselves (tower-lsp, parser), "
